@@ -556,7 +556,10 @@ def roles_unit(isa):
 
 
 def units(tier):
+    from . import c12
     return [
+        Unit("C03/register-alias-predicate/x86", c12.x86_unit, "P", [(c12.X86, "ParserX86ATT.is_reg_dependend_of")], timeout=900, decisive=False),
+        Unit("C03/register-alias-predicate/aarch64", c12.a64_unit, "P", [(c12.A64, "ParserAArch64.is_reg_dependend_of")], timeout=600, decisive=False),
         Unit("C03/is_read", read_written_unit("is_read"), "P", [(KDG, "KernelDG.is_read")]),
         Unit("C03/is_written", read_written_unit("is_written"), "P", [(KDG, "KernelDG.is_written")]),
         Unit("C03/find_depending", find_depending_unit, "P", [(KDG, "KernelDG.find_depending")]),
